@@ -323,6 +323,13 @@ class MarginTailIntegral(FunctionContract):
 
 
 UNITS = [FastPaths(2), FastPaths(3), Additivity(2), Additivity(3), MarginalConsistency(), MarginTailIntegral(), TailIntegralOfEachModel()]
+def LATE_UNITS():
+    # non-negativity and the I-margins of the mass rest on the copula being a Levy copula in every dimension used: the
+    # grounded / margins / volume contracts of the copulas offered by the helpers live in c11
+    from contracts import c11
+    return [c11.PiecewiseLinearCopulas(), c11.ClaytonGroundedAndMargins()]
+
+
 ASSUMPTIONS = ["A1: floats are mathematical reals", "(G) tail integrals vanish when a coordinate is infinite (C11 groundedness; nu_i((x, inf)) -> 0)",
                "non-negativity of the mass = d-increasing copula composed with monotone tail integrals (C11 + A6), not re-proved here",
                "equality with the integral of the joint density: d-dimensional fundamental theorem of calculus (A6)"]
